@@ -261,7 +261,7 @@ func newExecution(progs [][]Op, setupCount []int) *execution {
 				c.cur = i
 				if i == c.raceIdx {
 					// park until the driver starts the race
-					verifsched.Acquire(func() bool { return true }, raceSite)
+					verifsched.Acquire(func() bool { return true }, raceSite, nil)
 				}
 				if o.K == 'L' {
 					c.items = append(c.items, item{2, nil})
@@ -596,7 +596,13 @@ func main() {
 	setupF := flag.String("setup", "", "sequential set-up: each listed thread in turn runs one whole request")
 	maxExec := flag.Int("max", 0, "stop after this many executions (0: no limit)")
 	verbose := flag.Bool("v", false, "print the call chain of every step to stderr")
+	edgesF := flag.String("edges", "", "write the lock-order pairs observed (site held, site acquired, count) to this file")
 	flag.Parse()
+	defer func() {
+		if *edgesF != "" {
+			os.WriteFile(*edgesF, []byte(strings.Join(verifsched.Edges(), "\n")+"\n"), 0644)
+		}
+	}()
 	fail := func(a ...any) {
 		fmt.Fprintln(os.Stderr, append([]any{"INTERNAL:"}, a...)...)
 		os.Exit(2)
